@@ -69,6 +69,21 @@ def compare(stack, tuples=()):
         return diffs, obs
     if obs['dir'] != ref['dir']:
         diffs.append(('dir', obs['dir'], ref['dir']))
+    # attribute access: a name some layer of the stack declares as a property (`@meta`, the `ids` of a Source) is a VALUE, every other
+    # field a function - whatever the later layers do with the name (a LazyChain does not forward the properties of its members)
+    flat = refsem.flatten(stack)
+    if not _has_lazy(stack) and 'attrs' in obs:
+        props = set()
+        for d in flat:
+            if d['k'] in ('source', 'transform'):
+                props |= {n for n, sp in d.get('fields', {}).items() if sp.get('meta')}
+            if d['k'] == 'source':
+                props.add('ids')
+        for name, got in obs['attrs'].items():
+            if got.startswith('err:'):
+                continue
+            if (name in props) != got.startswith('value:'):
+                diffs.append((name + ':attribute', got[:80], 'a value (a property of the pipeline)' if name in props else 'a function'))
     for name in NAMES:
         exp = refsem.expect_field(ref, name)
         got = obs['fields'][name]
@@ -93,6 +108,10 @@ def compare(stack, tuples=()):
         if 'value' not in got or canon(got['value']) != canon(want):
             diffs.append((name + ':value', got.get('value', got.get('value_err')), want))
     return diffs, obs
+
+
+def _has_lazy(stack):
+    return stack.get('k') == 'chain' and (stack.get('flavour') == 'lazy' or any(_has_lazy(x) for x in stack.get('layers', [])))
 
 
 def model_request(stack):
